@@ -171,6 +171,8 @@ def t14(repo, res, canon, logic):
                         'registers the loop, and the loop is left only with an empty queue on shutdown')
     run = repo.func('Scheduler.run')
     rfr = Frame(run)
+    res.analysed(run, len(cached_paths(run)))
+    res.analysed(repo.func('Scheduler.start'), 1)
     loops = [st for st in run.node.body if isinstance(st, ast.While)]
     if not loops:
         res.bad('C04.T14', run, None, 'Scheduler.run has no top-level loop', 'the scheduler actor has no process loop')
